@@ -9,6 +9,9 @@ import (
 	"github.com/orbs-network/lean-helix-go/spec/types/go/primitives"
 	"math/rand"
 	"os"
+	"sync"
+	"sync/atomic"
+	"time"
 )
 
 const limbCount = 10
@@ -49,9 +52,31 @@ func absNum(u uint64) int {
 }
 
 type ndjson struct {
-	f *os.File
-	w *bufio.Writer
-	n int
+	f  *os.File
+	w  *bufio.Writer
+	n  int
+	mu sync.Mutex
+	// beat: time of the last line written (unix nanoseconds); see watchdog
+	beat int64
+}
+
+// watchdog: a table / tree driver calls the library directly; a call that never returns (a lock the library leaked on an earlier
+// call, a wait nobody ends) would leave the driver hanging until the check's time limit - an inconclusive run.  When no line has
+// been written for `after`, the watchdog writes `line` (an event of the driver's own format saying "the call made after the
+// last line did not return"), closes the trace and ends the process with exit 0: the trace specification judges the hang.
+func (o *ndjson) watchdog(after time.Duration, line func() obj) {
+	atomic.StoreInt64(&o.beat, time.Now().UnixNano())
+	go func() {
+		for {
+			time.Sleep(time.Second)
+			if time.Duration(time.Now().UnixNano()-atomic.LoadInt64(&o.beat)) > after {
+				o.emit(line())
+				o.close()
+				fmt.Printf("lines=%d HANG\n", o.n)
+				os.Exit(0)
+			}
+		}
+	}()
 }
 
 func newNdjson(path string) *ndjson {
@@ -69,14 +94,19 @@ func (o *ndjson) emit(v interface{}) {
 		fmt.Fprintln(os.Stderr, "marshal:", err)
 		os.Exit(2)
 	}
+	o.mu.Lock()
 	o.w.Write(b)
 	o.w.WriteByte('\n')
 	o.n++
+	o.mu.Unlock()
+	atomic.StoreInt64(&o.beat, time.Now().UnixNano())
 }
 
 func (o *ndjson) close() {
+	o.mu.Lock()
 	o.w.Flush()
 	o.f.Close()
+	o.mu.Unlock()
 }
 
 type obj = map[string]interface{}
